@@ -467,6 +467,24 @@ def run_case(c):
     r['nontrivial'] = True
     n_asm = M.n_asm
     cls = {}
+    if c.get('via') == 'reactor':
+        # the duct <-> gap hand-off the sweep uses is built for THIS assembly's gap cells: exactly its
+        # cells are covered (arrays are padded to the largest cell count of the core)
+        for ai, a in enumerate(rx.assemblies):
+            ng = int(np.sum(np.asarray(core._asm_sc_adj[ai]) > 0))
+            for reg in a.region:
+                d2g = np.asarray(reg._map['duct2gap'], dtype=float)
+                g2d = np.asarray(reg._map['gap2duct'], dtype=float)
+                okk = (d2g.shape[0] >= ng and g2d.shape[1] >= ng
+                       and np.all(np.abs(d2g[:ng].sum(axis=1) - 1.0) < 1e-12) and not np.any(d2g[ng:])
+                       and not np.any(g2d[:, ng:]) and np.all(g2d[:, :ng].max(axis=0) > 0.0)
+                       and np.all(np.abs(g2d.sum(axis=1) - 1.0) < 1e-12))
+                if not okk:
+                    bad('sweep-map-cover', 'duct<->gap maps of assembly %d (%s) do not cover exactly its %d gap cells '
+                        '(rows of duct2gap summing to one: %d, gap columns used by gap2duct: %d)'
+                        % (ai, a.name, ng, int(np.sum(np.abs(d2g.sum(axis=1) - 1.0) < 1e-12)),
+                           int(np.sum(g2d.max(axis=0) > 0.0))), site='reactor.py:_setup_gap_mesh_params')
+                    break
 
     # ---- neighbour table and centres -------------------------------
     adj_ok = (core.asm_adj.shape == (n_asm, 6)
